@@ -230,11 +230,15 @@ class KaniUnit:
         except subprocess.TimeoutExpired:
             _kill_cbmc_under(self.dir())
             return None
-        m = re.search(r"Concrete playback unit test.*?```(.*?)```", r.stdout, re.S)
-        if not m:
+        blocks = re.findall(r"Concrete playback unit test.*?```(.*?)```", r.stdout, re.S)
+        # one test per satisfied cover AND per failed check: take the first one generated for a failed check
+        blocks = [b for b in blocks if not re.search(r"Check for `cover`", b)]
+        if not blocks:
             return None
+        body = blocks[0]
+        body = body[body.index("vec!["):] if "vec![" in body else body
         vals = []
-        for vm in re.finditer(r"(?://\s*(\S+)\s*\n\s*)?vec!\[([0-9,\s]*)\]", m.group(1)):
+        for vm in re.finditer(r"(?://\s*(\S+)\s*\n\s*)?vec!\[([0-9,\s]*)\]", body[len("vec!["):]):
             bs = [int(x) for x in vm.group(2).replace(" ", "").split(",") if x]
             vals.append({"bytes": bs, "le": int.from_bytes(bytes(bs), "little") if bs else 0})
         for i, v in enumerate(vals):
